@@ -1065,3 +1065,24 @@ def _bounded_substitution(ctx):
                 failures.append({'input': 'list %r' % (combo,), 'expected': want, 'actual': actual})
     ctx.bounded_result('ListSdv.resolve / StringSdv.resolve', 'sequences of <= 3 fragments/elements over 3 constants '
                        'and 7 symbols (strings, lists, path; direct and indirect)', cases, True, failures)
+
+
+# --- the two standard restrictions
+
+M.contract(P_RR + ':is_any_type_w_str_rendering', params=dict(), inline=True,
+           ensures={'direct: any of STRING, PATH, LIST; no indirect restriction': lambda result:
+           type(result) is rr.ReferenceRestrictionsOnDirectAndIndirect and result.indirect is None
+           and type(result.direct) is vr.ArbitraryValueWStrRenderingRestriction
+           and set(result.direct.accepted) == set(WithStrRenderingType)
+           and set(result.direct._accepted) == {ValueType.STRING, ValueType.PATH, ValueType.LIST}},
+           raises_only=())
+
+M.contract(P_RR + ':is_string__all_indirect_refs_are_strings', params=dict(meaning_of_failure_of_indirect_reference=Any_),
+           inline=True,
+           ensures={'direct: STRING; indirect: STRING': lambda result:
+           type(result) is rr.ReferenceRestrictionsOnDirectAndIndirect
+           and type(result.direct) is vr.ArbitraryValueWStrRenderingRestriction
+           and type(result.indirect) is vr.ArbitraryValueWStrRenderingRestriction
+           and tuple(result.direct._accepted) == (ValueType.STRING,)
+           and tuple(result.indirect._accepted) == (ValueType.STRING,)},
+           raises_only=())
